@@ -13,3 +13,6 @@ func lemmaC11Commit(a, b *TermInCommittee, cm *interfaces.CommitMessage)   {}
 
 // L11: a VIEW_CHANGE emitted by correct node a is acceptable to correct peer b, the leader it is addressed to
 func lemmaC11Vote(a, b *TermInCommittee, vcm *interfaces.ViewChangeMessage) {}
+
+// L11: a NEW_VIEW emitted by elected leader a is adopted by correct peer b (under the premises stated in the contract)
+func lemmaC11NewView(a, b *TermInCommittee, nvm *interfaces.NewViewMessage) {}
